@@ -608,7 +608,8 @@ func (p *BinaryProtocol) ReadMapBegin() (kType, vType Type, size int, err error)
 		err = e
 		return
 	}
-	if size32 < 0 {
+	// every entry takes at least one byte for the key and one for the value
+	if size32 < 0 || int(size32) > p.Left()/2 {
 		err = errInvalidDataSize
 		return
 	}
@@ -639,7 +640,8 @@ func (p *BinaryProtocol) ReadListBegin() (elemType Type, size int, err error) {
 		err = e
 		return
 	}
-	if size32 < 0 {
+	// every element takes at least one byte
+	if size32 < 0 || int(size32) > p.Left() {
 		err = errInvalidDataSize
 		return
 	}
@@ -671,7 +673,8 @@ func (p *BinaryProtocol) ReadSetBegin() (elemType Type, size int, err error) {
 		err = e
 		return
 	}
-	if size32 < 0 {
+	// every element takes at least one byte
+	if size32 < 0 || int(size32) > p.Left() {
 		err = errInvalidDataSize
 		return
 	}
